@@ -1,8 +1,8 @@
 \* C15 quick: <= 2 editing calls on the empty changelog and on every changelog parsed from a text of
-\* <= 3 lines with <= 1 mutation (4 representative classes), both allow_empty_author settings
+\* <= 3 lines with <= 1 mutation (3 representative classes), both allow_empty_author settings
 CONSTANTS
   Mode = "edit"
-  Classes = {"Junk", "EndNoDetails", "EndOneSpace", "Vim"}
+  Classes = {"Junk", "EndNoDetails", "EndOneSpace"}
   AEAs = {TRUE, FALSE}
   MaxLines = 3
   MaxBlocks = 1
